@@ -31,6 +31,9 @@ CHECKS.update({
 "C12":("exploration","Two real nodes over simulated TCP (random segmentation, pooled links with latency skew) exchanging typed payloads of boundary sizes with all compression settings, bounded and missing receivers and a peer message-size limit; send log vs receive log: exactly once, right addressee, true sender, payload equality, oversize refused at the sender, important-delivery results truthful."),
 "C13":("exploration","Numbered streams between process pairs over pooled links with up to 1000x latency skew, segmentation, a single pooled link cut (re-dialled by the protocol) or stalled mid-stream, pid residues varied by filler spawns; per (sender, receiver, addressing mode) the received sequence must increase, nothing twice, nothing lost without a cut."),
 })
+CHECKS.update({
+"C14":("fault_enumeration","Two real nodes over simulated TCP; observers hold links/monitors on a remote pid, name, alias, event and on the node, with a call or important send in flight; faults enumerated over kind (all links cut, one link cut, graceful stop, crash, crash+restart after 0.2-5 s, partition) x instant x target-terminated-before; exactly-one notification with 'no connection' or the remote reason, bounded completion of the in-flight request, connection survives a single link cut, identifiers of the previous incarnation refused and never delivered."),
+})
 NA={}
 def chk(pid):
     level,text=CHECKS[pid]
